@@ -33,9 +33,13 @@ MANIFEST = {
                 "sources into functions over the heap operations of Heap.lean (lean/Nstd/Generated/CallbackBody.lean) and proved equal "
                 "to the model's steps on every state that satisfies what the audit implies (tie_connect(T), tie_disconnect(T), "
                 "tie_dtorListener, tie_dtorEmitter, tie_ctorActivation, tie_dtorActivation, tie_emit_next/first/scan); "
-                "translated_code_runs_as_model: for every program, history and fuel the evaluator over the machine made of the "
-                "translated code reaches the same state and writes the same log as over the hand-written model, so the theorems above "
-                "are theorems about the code as written (translated_code_refines_spec). A change of one of these bodies changes the "
+                "tie_dtorEmitter: the translated ~Emitter is the model's pair-by-pair form or the bulk form (whole list dropped with "
+                "Map::remove; sim_bulk: related to the same specification state - it differs from the model's state only in keys "
+                "with empty lists); translated_code_refines_spec / translated_code_runs_as_model: for every program, history and "
+                "fuel the evaluator over the machine made of the translated code writes the log of the specification and of the "
+                "hand-written model, is never flagged, and its final state is related by the simulation relation to the same "
+                "specification state as the model's (hence audit, clean bookkeeping) - so the theorems above "
+                "carry over to the code as written. A change of one of these bodies changes the "
                 "generated definition: the equality fails or the translator refuses (broken obligation; the check then searches for a "
                 "failing input). DESTRUCTORS (PropsOrder.lean): dtor_listener_order_irrelevant and dtor_emitter_order_irrelevant - "
                 "visiting the Map keys in any order gives the same state, for every state; destructor_invokes_no_slot. ADDRESS REUSE "
@@ -55,7 +59,7 @@ MANIFEST = {
         "note": "Trusted: Lean kernel + the three standard axioms; the translator tools/gen_callback.py (its reading of the C++ subset: "
                 "references/iterators as paths bound at their declaration, stores through the path, `p->member` = existence check, "
                 "`find`/`insert`/`append`/`remove`/`begin`/`end` of Map and List as the heap operations of Heap.lean, search loops as "
-                "findIdx?, for-each loops as foldl over the sequence as it is when the loop starts (refused when the body changes a "
+                "findIdx?, ASSERTs and typedefs skipped, member helpers of the emit loop inlined, pointer locals carried through folds, for-each loops as foldl over the sequence as it is when the loop starts (refused when the body changes a "
                 "container of that kind), the purge switch as filterMap, Map iteration in the model's insertion order - shown "
                 "immaterial by the order theorems; a value-initialised Slot()/Signal() node has fields 0/connected, every field is "
                 "assigned before it is read) and the representation in Heap.lean: pointers are ids, Map = key list + lookup function, "
@@ -71,7 +75,8 @@ MANIFEST = {
                 "in the slot); reference parameters are modelled as one cell per emission (signal 9: `int&`; `const int&` and `int*` "
                 "only by the fixed `refargs` line). Ids: in `exec` a re-created object gets a new id; listener address reuse is proved unobservable "
                 "(reuse_listener_refines; restricted to listener variables < nl because `exec` lets out-of-range variables alias ids "
-                "handed out later); OPEN (PropsReuse.lean): emitter address reuse (the simulation relation is not kept while "
+                "handed out later - reuse_restriction_needed exhibits a history on which the logs differ otherwise); OPEN (PropsReuse.lean): emitter address reuse in general (proved towards it: sim_reviveE when no activation of the old "
+                "emitter is on the stack, next/actEnd/invalidate do not read the data of invalidated frames; the simulation relation is not kept while "
                 "invalidated frames of the old emitter are on the stack; the specification identifies an emission by (emitter, "
                 "signal)) - both kinds of reuse are tested on every line (execR in the driver, `reuse` mode of the harness). "
                 "The audit of no_dangling is decided classically (the audited model is not executable; it is a proof device). "
